@@ -341,8 +341,27 @@ impl Session {
                         let text = rest.split('\n').next().unwrap_or("");
                         let structured = m.starts_with('\n') && m.contains("\n  target: ");
                         let absd = on_vfs!(self, v, v.abs(&p1).map(|x| format!("{:?}", x)).unwrap_or_else(|_| format!("{:?}", p1)));
-                        let names_path = m.contains(&absd) || m.contains(&format!("{:?}", p1));
-                        format!("ok panic|{}|{}|path={}", name, if structured { hex(text.as_bytes()) } else { "ERR".to_string() }, names_path as u8)
+                        let second = p2.as_ref().and_then(|x| arg_str(x)).map(|x| format!("{:?}", x)).unwrap_or_else(|| "\u{0}".to_string());
+                        let second_abs = p2.as_ref().and_then(|x| arg_str(x)).and_then(|x| on_vfs!(self, v, v.abs(&x).ok())).map(|x| format!("{:?}", x)).unwrap_or_else(|| "\u{0}".to_string());
+                        let absp = on_vfs!(self, v, v.abs(&p1).map(|x| x.to_string_lossy().to_string()).unwrap_or_else(|_| p1.clone()));
+                        let anc_named = {
+                            // an error raised by the vfs call names the offending path, possibly an ancestor of the target
+                            let mut q = std::path::PathBuf::from(&absp);
+                            let mut hit = false;
+                            loop {
+                                let qs = q.to_string_lossy().to_string();
+                                if qs.len() > 1 && m.contains(&qs) {
+                                    hit = true;
+                                    break;
+                                }
+                                if !q.pop() {
+                                    break;
+                                }
+                            }
+                            hit
+                        };
+                        let names_path = (!structured && !absp.is_empty() && (m.contains(&absp) || anc_named)) || m.contains(&absd) || m.contains(&format!("{:?}", p1)) || m.contains(&second) || m.contains(&second_abs);
+                        format!("ok panic|{}|{}{}", name, if structured { hex(text.as_bytes()) } else { "ERR".to_string() }, if names_path { "" } else { "|nopath" })
                     },
                 }
             },
